@@ -241,6 +241,13 @@ impl E2Run for Sock {
             }
             let sock_type = if stream_mode { SocketType::Stream } else { SocketType::Datagram };
 
+            // the listener may be bound to the wildcard address; a stray client may try a port
+            // nobody listens on (its fate is not asserted: it must disturb nothing and crash nothing)
+            let wildcard_bind = sim::chance(1, 4);
+            let stray = stream_mode && sim::chance(1, 6);
+            if wildcard_bind {
+                sim::count("probe_listener_bound_to_the_wildcard_address");
+            }
             // ---- server
             let slog = log2.clone();
             let expect_reply_global = !reply_writes.is_empty();
@@ -253,7 +260,8 @@ impl E2Run for Sock {
                         return;
                     }
                 };
-                if lsock.bind(server_ep).is_err() || lsock.listen(16).is_err() {
+                let bind_ep = if wildcard_bind { Endpoint::new(Ipv4Address::new([0, 0, 0, 0]), server_ep.port) } else { server_ep };
+                if lsock.bind(bind_ep).is_err() || lsock.listen(16).is_err() {
                     slog.lock().unwrap().errors.push("server bind/listen failed".into());
                     return;
                 }
@@ -313,6 +321,21 @@ impl E2Run for Sock {
                         tokio::time::sleep(Duration::from_millis(start_delay)).await;
                     }
                     let api = ctx.machine.protocol::<SocketAPI>().unwrap();
+                    if stray && c == 0 {
+                        let api = api.clone();
+                        let machine = ctx.machine.clone();
+                        elvis_core::verif::tokio::spawn(async move {
+                            if let Ok(mut s) = api.new_socket(ProtocolFamily::INET, SocketType::Stream, machine).await {
+                                let closed = Endpoint::new(server_ep.address, 8001);
+                                let r = tokio::time::timeout(Duration::from_secs(10), s.connect(closed)).await;
+                                sim::count(match r {
+                                    Ok(Ok(_)) => "probe_stray_connect_to_closed_port_returned_ok",
+                                    Ok(Err(_)) => "probe_stray_connect_to_closed_port_refused",
+                                    Err(_) => "probe_stray_connect_to_closed_port_still_waiting_after_10s",
+                                });
+                            }
+                        });
+                    }
                     let mut sock = match api.new_socket(ProtocolFamily::INET, sock_type, ctx.machine.clone()).await {
                         Ok(s) => s,
                         Err(_) => return,
